@@ -365,15 +365,17 @@ def observe(cases):
     out = [None] * len(cases)
     gi = [i for i, c in enumerate(cases) if not is_link(c)]
     li = [i for i, c in enumerate(cases) if is_link(c)]
+    # many small payloads (the framework runs JOBS of them at a time): one process stays far below its timeout even when
+    # the machine is shared with other checks
     if gi:
-        n = min(16, len(gi))
-        res = run_impl_parallel("c16_graph.py", [{"cases": [cases[i] for i in gi[k::n]]} for k in range(n)])
+        n = max(min(16, len(gi)), -(-len(gi) // 20000))
+        res = run_impl_parallel("c16_graph.py", [{"cases": [cases[i] for i in gi[k::n]]} for k in range(n)], timeout=1800)
         for k, r in enumerate(res):
             for i, o in zip(gi[k::n], r):
                 out[i] = o
     if li:
-        n = min(16, len(li))
-        res = run_impl_parallel("c16_links.py", [{"cases": [cases[i] for i in li[k::n]]} for k in range(n)])
+        n = max(min(16, len(li)), -(-len(li) // 1500))
+        res = run_impl_parallel("c16_links.py", [{"cases": [cases[i] for i in li[k::n]]} for k in range(n)], timeout=1800)
         for k, r in enumerate(res):
             for i, o in zip(li[k::n], r):
                 out[i] = canon_link_obs(o)
